@@ -7,6 +7,7 @@ import (
 	"errors"
 	"fmt"
 	"io"
+	"math"
 	"net"
 	"strings"
 	"time"
@@ -73,6 +74,9 @@ func (s *Stream) readObject(resp ProtocolObject, maxLen uint64) error {
 		s.readSub = false
 	}
 
+	if maxLen > math.MaxInt64-minMessageSize {
+		maxLen = math.MaxInt64 - minMessageSize // the reader's bound is an int64
+	}
 	maxLen += minMessageSize // account for rpcResponse framing
 	d := types.NewDecoder(io.LimitedReader{R: s.s, N: int64(maxLen)})
 	if l := d.ReadUint64(); uint64(l) > maxLen {
